@@ -36,7 +36,7 @@ def run(ctx):
         for fin in (False, True):
             r = e2e.run_real(src, fin, False)
             if r["exc"]:
-                if r["exc"][0] != "ParseError":
+                if r["exc"][0] not in ("ParseError", "Timeout"):      # the 30 s limit is a harness safety net; termination is property C06
                     failing.append({"what": f"raise: Analysis.run(fin={fin}) raised {r['exc']}", "sig": ["C02", "raise", r["exc"][0], r["exc"][1]],
                                     "input": {"src": src, "opts": {"fin": fin}}, "expected": "a result", "observed": r["exc"]})
                 continue
